@@ -263,7 +263,14 @@ class Escape:
                 caught = {x for x in remaining if self._matches(x.cls, names)}
             remaining -= caught
             if not caught:
-                continue        # nothing reaches this handler
+                # exceptions of plain expressions are not tracked as escapes, but a
+                # handler written for one (KeyError on a subscript, AttributeError
+                # on an attribute, ...) IS reached when the try body contains such
+                # an expression: analyse its body, binding nothing
+                imp = self._implicit(s, names)
+                if not imp:
+                    continue        # nothing reaches this handler
+                caught = imp
             st.caught.append(caught)
             if h.name:
                 old = st.hvars.get(h.name)
@@ -278,6 +285,34 @@ class Escape:
                     else:
                         st.hvars[h.name] = old
         return out | remaining
+
+    def _implicit(self, s, names):
+        """Implicit exception classes (by construct present in the try body) that
+        the handler names cover; returned as non-escaping marker items."""
+        if names is None:
+            return set()
+        have = set()
+        for b in s.body:
+            for x in ast.walk(b):
+                if isinstance(x, ast.Subscript) and isinstance(x.ctx, ast.Load):
+                    have |= {"KeyError", "IndexError"}
+                elif isinstance(x, ast.Attribute) and isinstance(x.ctx, ast.Load) \
+                        and isinstance(x.value, ast.Name):
+                    have.add("AttributeError")
+                elif isinstance(x, ast.Delete):
+                    have |= {"AttributeError", "KeyError"}
+                elif isinstance(x, ast.Call) and dotted(x.func) in ("int", "float"):
+                    have.add("ValueError")
+                elif isinstance(x, ast.Assign) and isinstance(x.targets[0], (ast.Tuple, ast.List)):
+                    have.add("ValueError")
+                elif isinstance(x, ast.BinOp) and isinstance(x.op, (ast.Div, ast.FloorDiv, ast.Mod)):
+                    have.add("ZeroDivisionError")
+        out = set()
+        for c in have:
+            if c in names or any(is_subclass(c, n) for n in names if n in (
+                    "LookupError", "ArithmeticError")):
+                out.add(Exc(c, "implicit", "expr"))
+        return out
 
     @staticmethod
     def _matches(cls, names):
